@@ -86,6 +86,14 @@ impl Persister for FilePersister {
                 format!("{COMPONENT} (error: {error}) - failed to write data to file: {path}")
             })
             .map_err(|_| IggyError::CannotWriteToFile)?;
+        // tokio performs the write on a blocking thread, wait for it: when this returns the bytes are in the file
+        // (and consecutive appends can't overtake each other).
+        file.flush()
+            .await
+            .with_error_context(|error| {
+                format!("{COMPONENT} (error: {error}) - failed to flush data to file: {path}")
+            })
+            .map_err(|_| IggyError::CannotWriteToFile)?;
         #[cfg(iggy_verif)]
         if crate::verif::fs_hook_installed() {
             // the event means "the bytes are in the file": wait for tokio's in-flight write first
@@ -106,6 +114,14 @@ impl Persister for FilePersister {
             .await
             .with_error_context(|error| {
                 format!("{COMPONENT} (error: {error}) - failed to write data to file: {path}")
+            })
+            .map_err(|_| IggyError::CannotWriteToFile)?;
+        // tokio performs the write on a blocking thread, wait for it: when this returns the bytes are in the file
+        // (and consecutive appends can't overtake each other).
+        file.flush()
+            .await
+            .with_error_context(|error| {
+                format!("{COMPONENT} (error: {error}) - failed to flush data to file: {path}")
             })
             .map_err(|_| IggyError::CannotWriteToFile)?;
         #[cfg(iggy_verif)]
